@@ -333,6 +333,23 @@ def abs_hook(v, memo, depth):
         return ["obj", memo[key][0], f"{t.__module__}.{t.__qualname__}", ["state", abs_value(v.__dict__, memo, depth + 1)]]
     if isinstance(v, property):
         return ["prop"]
+    # container subclasses and deque: absval adds an `extra` observation (instance __dict__ / __reduce_ex__ pieces) that the
+    # model does not carry; build the payload here so that nothing the canonical form drops gets an identity number
+    if isinstance(v, collections.deque) or (isinstance(v, (list, tuple)) and t not in (list, tuple)):
+        key = id(v)
+        if key in memo:
+            return ["ref", memo[key][0]]
+        memo[key] = (len(memo), v)
+        me = memo[key][0]
+        return ["obj", me, f"{t.__module__}.{t.__qualname__}", ["seq", [abs_value(x, memo, depth + 1) for x in v], None]]
+    if isinstance(v, dict) and not isinstance(v, collections.defaultdict) and t not in (dict, collections.OrderedDict):
+        key = id(v)
+        if key in memo:
+            return ["ref", memo[key][0]]
+        memo[key] = (len(memo), v)
+        me = memo[key][0]
+        return ["obj", me, f"{t.__module__}.{t.__qualname__}",
+                ["dict", [[abs_value(k, memo, depth + 1), abs_value(x, memo, depth + 1)] for k, x in v.items()], None]]
     if isinstance(v, (np.ndarray, np.generic, np.dtype, np.random.RandomState, np.random.Generator, functools.partial, dict, list, tuple, set,
                       frozenset, collections.deque, bytes, bytearray, slice, type, types.FunctionType, types.BuiltinFunctionType,
                       types.MethodType, operator.attrgetter, operator.itemgetter, operator.methodcaller)) or v is None:
